@@ -1,12 +1,13 @@
 import FeatModel.Model.Solver.Krylov
 import FeatModel.Model.Solver.BiCGStab
+import FeatModel.Model.Solver.Chebyshev
 import FeatModel.Lemmas.C07Krylov
 /-! Helper lemmas for C07: residual identities `r_k = F(b − A x_k)` of PCR and BiCGStab (every k, every
     preconditioner function) -/
 namespace FeatModel.Solver
 set_option linter.unusedSectionVars false
 
-variable {V α : Type} [Mul α] [Div α] [Neg α] [Zero α] [One α] [LE α] [LT α] [DecidableEq α] [DecidableLE α]
+variable {V α : Type} [Add α] [Mul α] [Div α] [Neg α] [Zero α] [One α] [LE α] [LT α] [DecidableEq α] [DecidableLE α]
   [DecidableLT α]
 
 /-- PCR additionally updates `q_k = F A p_k` by recurrence: linearity of `F∘A` over `scale` + `axpy` -/
@@ -373,5 +374,69 @@ theorem pcgnrIntern_spec (S : Sys V α) (hl : Lawful S) (c : Config α) (prev : 
           (by subst hst; simp [fuelOf]) h
         subst hst
         exact ⟨this.1, this.2.1, this.2.2.1, Or.inr this.2.2.2⟩
+
+theorem chebLoop_spec (S : Sys V α) (c : Config α) (d cc : α) (b : V) :
+    ∀ (fuel : Nat) (x df cor : V) (alpha : α) (st : State α) (hist : List α) (res : Result V α),
+      st.numIter ≤ max c.minIter c.maxIter → max c.minIter c.maxIter + 1 ≤ fuel + st.numIter →
+      chebLoop S c d cc b fuel x df cor alpha st hist = some res →
+      res.st.defInit = st.defInit ∧ res.status ≠ .undefined ∧ res.status ≠ .progress ∧
+        (res.status ≠ .aborted → 0 < res.st.numIter ∧ FinalStep S c b res) := by
+  intro fuel
+  induction fuel with
+  | zero => intro x df cor alpha st hist res h1 h2; omega
+  | succ fuel ih =>
+    intro x df cor alpha st hist res h1 h2 h
+    simp only [chebLoop] at h
+    split at h
+    · exact absurd h (by simp)
+    · rename_i alpha' _
+      generalize hx' : S.ops.axpy x (S.ops.axpy (S.ops.scale cor (alpha' * d + -1)) df alpha') 1 = x' at h
+      generalize hsn : setNewDefect c st true (S.nrm (resid S b x')) = sn at h
+      obtain ⟨status, st'⟩ := sn
+      have hf := setNew_frame c st st' true _ _ hsn
+      simp only at h
+      split at h
+      · rename_i hne
+        simp only [Option.some.injEq] at h
+        subst h
+        refine ⟨hf.2.1, setNew_ne_undefined c _ _ _ _ _ hsn, by simpa using hne, ?_⟩
+        intro _
+        exact ⟨by simp only; omega, st, hsn⟩
+      · rename_i hne
+        have hp : status = .progress := by simpa using hne
+        subst hp
+        have hb := setNew_progress_bound c st st' true _ hsn
+        have := ih x' _ _ _ st' _ res (by omega) (by omega) h
+        rw [hf.2.1] at this
+        exact this
+
+theorem chebIntern_spec (S : Sys V α) (c : Config α) (prev : State α) (minEv maxEv : α) (b x df : V)
+    (res : Result V α) (h : chebIntern S c prev minEv maxEv b x df = some res) :
+    res.st.defInit = S.nrm df ∧ res.status ≠ .undefined ∧ res.status ≠ .progress ∧
+      ((res.st.numIter = 0 ∧ res.x = x ∧ res.st.defCur = S.nrm df ∧
+          (res.status = .aborted ∨ (res.status = .success ∧ (S.nrm df < c.tolAbsLow ∨ S.nrm df ≤ c.eps2)))) ∨
+        (res.status ≠ .aborted → 0 < res.st.numIter ∧ FinalStep S c b res)) := by
+  simp only [chebIntern] at h
+  rcases hsi : setInitialDefect c prev true (S.nrm df) with ⟨status, st⟩
+  rw [hsi] at h
+  obtain ⟨hst, _, hsu, hpr, hall⟩ := setInitial_spec c prev true _ _ _ hsi
+  simp only at h
+  split at h
+  · exact absurd h (by simp)
+  · split at h
+    · rename_i hne
+      simp only [Option.some.injEq] at h
+      subst h
+      subst hst
+      have hne' : status ≠ .progress := by simpa using hne
+      refine ⟨rfl, ?_, hne', Or.inl ⟨rfl, rfl, rfl, ?_⟩⟩
+      · rcases hall with e | e | e <;> simp_all
+      · rcases hall with e | e | e
+        · exact Or.inl e
+        · exact Or.inr ⟨e, (hsu.1 e).2⟩
+        · exact absurd e hne'
+    · have := chebLoop_spec S c _ _ b _ x df _ _ st _ res (by subst hst; simp) (by subst hst; simp [fuelOf]) h
+      subst hst
+      exact ⟨this.1, this.2.1, this.2.2.1, Or.inr this.2.2.2⟩
 
 end FeatModel.Solver
